@@ -25,7 +25,7 @@ BUDGET = {"quick": 240, "thorough": 3000}
 
 
 def bounds(tier):
-    return {"members": "0..2 over 9 contents (all), 3 over a 4-content core; plus one sparse archive whose first member is "
+    return {"members": "0..2 over 10 contents (all), 3 over a 4-content core; plus one sparse archive whose first member is "
                        "1000000001 bytes long (10-digit size field), histories to depth 2-3", "name_styles": ["gnu", "bsd"],
             "open_modes": ["shared fileobj", "filename"], "graph": "fixpoint",
             "tree_depth": {"quick": "2 (3 on the 2-member core)", "thorough": "3 (4 on the 2-member core)"}[tier],
@@ -41,7 +41,8 @@ def contents(seed):
     a = core.rep(seed, [b"a", b"z", b"\x00", b"\xff"])
     b = core.rep(seed, [b"b", b"y", b"\x01", b"\xfe"])
     n = b"\n"
-    return [b"", a, n, a + b, a + n, n + a, a + n + b, a + n + b + n, n + n]
+    # (the last one has a carriage return that is not a line end for a binary file)
+    return [b"", a, n, a + b, a + n, n + a, a + n + b, a + n + b + n, n + n, a + b"\r" + b + n]
 
 
 META = [(0, 0, 0), (1000, 1000, 1000), (123456789012, 999999, 999999)]
